@@ -9,7 +9,7 @@ EXTENDS ValidationOps, TLC, Json
 CONSTANTS BaseSet,        \* indices into Bases explored
           PairBaseSet,    \* bases for which all pairs of malformations are explored
           HierarchyCheck, \* FALSE = deviation D10: conditional_on is not checked against i
-          Shortcut        \* "none" | "allfixed" | "sample" | "slicerkw" | "lateref" | "paramsignored" | "falsyfixed" | "depkwignored" | "fitkeyignored" | "objectunchecked" | "noneaccepted"
+          Shortcut        \* "none" | "allfixed" | "sample" | "slicerkw" | "lateref" | "paramsignored" | "falsyfixed" | "depkwignored" | "fitkeyignored" | "objectunchecked" | "noneaccepted" | "entryaccepted"
 VARIABLES pc, case, stage, cls
 
 vars == <<pc, case, stage, cls>>
